@@ -19,7 +19,9 @@ import enum
 import os
 import pathlib
 import re
-from collections.abc import Callable
+import functools
+import contextlib
+from collections.abc import Callable, Iterator
 from typing import Any, ClassVar, Final, Literal, NamedTuple, NewType, Optional, TypeAlias, TypedDict, TypeVar, cast, overload
 
 
@@ -97,6 +99,40 @@ def ov(x: str) -> str: ...
 def ov(x: Any) -> Any: ...
 
 
+def to_str(fn: Callable[[], int]) -> Callable[[], str]: ...
+def same(fn: Callable[[], int]) -> Callable[[], int]: ...
+def generic_deco(fn: Callable[[], T]) -> Callable[[], T]: ...
+def untyped_deco(fn): ...
+def deco_factory(n: int) -> Callable[[Callable[[], int]], Callable[[], list[int]]]: ...
+@to_str
+def d_int_to_str() -> int: ...
+@same
+def d_same_int() -> int: ...
+@generic_deco
+def d_generic_int() -> int: ...
+@untyped_deco
+def d_untyped() -> int: ...
+@deco_factory(2)
+def d_factory() -> int: ...
+@same
+@to_str
+def d_stack_bad() -> int: ...
+@functools.cache
+def d_cached() -> int: ...
+@functools.lru_cache(maxsize=None)
+def d_lru() -> str: ...
+@contextlib.contextmanager
+def d_ctx() -> Iterator[int]: ...
+lam_int = lambda: 1
+part_int = functools.partial(int, "1")
+class Deco:
+    @to_str
+    def m_changed(self) -> int: ...
+    @functools.cached_property
+    def cp_int(self) -> int: ...
+deco = Deco()
+
+
 class C:
     attr_int: int = 1
     attr_any: Any = None
@@ -125,6 +161,9 @@ OPERANDS = [
     "f_int()", "f_str()", "f_list()", "f_any()", "f_opt()", "f_nt()", "f_untyped()", "generic(1)", "generic('')", "ov(1)", "ov('')", "C()", "MyStr()", "NT(1, '')",
     "int('1')", "str(1)", "list(v_set)", "len(v_list)", "v_str.upper()", "v_list.copy()", "v_dict.keys()", "v_dict.get('k')", "c.m_list()", "C.s_int()", "C.c_str()",
     "os.getcwd()", "undefined_function()", "(lambda: 1)()",
+    # decorated callables: the name's type is what the decorators return, not what the def says
+    "d_int_to_str()", "d_same_int()", "d_generic_int()", "d_untyped()", "d_factory()", "d_stack_bad()", "d_cached()", "d_lru()", "d_ctx()", "lam_int()", "part_int()",
+    "deco.cp_int", "d_int_to_str", "d_same_int",
     # attributes
     "c.attr_int", "c.attr_any", "c.cls_var", "C.cls_var", "c.inst_str", "c.prop_str", "v_nt.a", "v_path.name", "os.sep", "IE.A", "c.missing",
     # operators and subscripts
